@@ -154,6 +154,15 @@ class ComponentBump:
         """
         if self.to_rbuild is None:
             return {}
+        # rbuilds included into previous build(s) of the parent: 'from' rbuilds
+        # and all their ancestors (component history may contain merges)
+        already_included = set()
+        rb_stack = list(self.from_rbuilds.values())
+        while rb_stack:
+            rbuild = rb_stack.pop()
+            if rbuild.iid not in already_included:
+                already_included.add(rbuild.iid)
+                rb_stack.extend(rbuild.parent_rbuilds.values())
         # DFS rbuilds in the component
         dfs_stack = [[self.to_rbuild]]
         dfs_sp = [0]
@@ -177,7 +186,7 @@ class ComponentBump:
 
             cur_rbuild = dfs_stack[-1][cur_sp]
 
-            if cur_rbuild.iid in self.from_rbuilds:
+            if cur_rbuild.iid in already_included:
                 # do not go deeper
                 dfs_sp[-1] = cur_sp - 1
                 continue
